@@ -61,9 +61,7 @@ Oracle boundaries
 """
 from __future__ import annotations
 
-import copy
 import functools
-import itertools
 import json
 import math
 
